@@ -136,7 +136,7 @@ Definition collect_with (comp : hy -> cres) (with_kwargs dict_display : bool) :=
                 | Coll es ks =>
                     if dict_display then Coll (None :: Some e :: es) ks
                     else if with_kwargs then Coll es ((None, e) :: ks)
-                    else Coll es ks                              (* dropped *)
+                    else CollErr CUser                           (* can't unpack a mapping here *)
                 | err => err
                 end
             | bad => CollErr bad
@@ -202,7 +202,7 @@ Definition all_ok (comp : hy -> cres) :=
 Definition collect1 (comp : hy -> cres) (x : hy) : cres + option expr :=
   if is_unpack s_unpack_mapping x then
     match x with
-    | HExpr (_ :: v :: _) => match comp v with COk _ => inr None | bad => inl bad end
+    | HExpr (_ :: v :: _) => match comp v with COk _ => inl CUser (* can't unpack a mapping here *) | bad => inl bad end
     | _ => inl CInternal
     end
   else match comp x with COk e => inr (Some e) | bad => inl bad end.
@@ -356,7 +356,9 @@ Fixpoint compile (t : hy) : cres :=
   | HSet l => match collect_with compile false false l with
               | Coll es _ => COk (ESet (somes es)) | CollErr bad => bad end
   | HDict l => match collect_with compile false true l with
-               | Coll es _ => COk (EDict (evens es) (odds es)) | CollErr bad => bad end
+               | Coll es _ => if Nat.even (length es) then COk (EDict (evens es) (odds es))
+                              else CUser                          (* a dictionary literal needs an even number of child forms *)
+               | CollErr bad => bad end
   | HExpr [] => CUser                                            (* empty expressions are not allowed *)
   | HExpr (root :: args) =>
       match root with
